@@ -16,6 +16,7 @@
 //   I <arch> <enc> <off8> <ret>                  return value of the initialisation (alignment of start_offset)
 //   D <dist> <enc> <data> <expect>               delta through the lone coder under many slicings; public chain
 //   J <type> <dist> <ret>                        delta option validation
+//   F <path>                                     .xz test file: prints FILE .. e=<first filter still applied> p=<content>
 // stdout: MISMATCH line=<n> what=<..> detail..., finally DONE lines=<n> runs=<m> calls=<c> mismatches=<k>
 #include "common.h"
 #include "simple_coder.h"
@@ -312,6 +313,47 @@ int main(void)
 				++runs;
 				if ((int)r != wret) mismatch_num("delta_options_ret", enc ? "encoder" : "decoder", r, wret);
 			}
+		} else if (kind[0] == 'F') {
+			// a .xz file written by some other version: print the payload with only the first (BCJ/delta)
+			// filter still applied (E) and the fully decoded, integrity-checked content (P)
+			const char *path = TOK();
+			FILE *fp = fopen(path, "rb");
+			if (fp == NULL) { printf("BADLINE %lu cannot open %s\n", lineno, path); return 2; }
+			static uint8_t file[1 << 20];
+			const size_t fsize = fread(file, 1, sizeof(file), fp);
+			fclose(fp);
+			const size_t cap = 1 << 21;
+			uint8_t *pbuf = malloc(cap), *ebuf = malloc(cap);
+			uint64_t memlimit = UINT64_MAX;
+			size_t ip = 0, plen = 0;
+			lzma_ret r = lzma_stream_buffer_decode(&memlimit, 0, NULL, file, &ip, fsize, pbuf, &plen, cap);
+			++runs;
+			if (r != LZMA_OK) { mismatch_num("file_decode", path, r, LZMA_OK); free(pbuf); free(ebuf); continue; }
+			lzma_stream_flags sf;
+			lzma_block blk;
+			lzma_filter df[LZMA_FILTERS_MAX + 1];
+			memset(&blk, 0, sizeof(blk));
+			if (lzma_stream_header_decode(&sf, file) != LZMA_OK) { printf("BADLINE %lu header\n", lineno); return 2; }
+			blk.version = 1; blk.check = sf.check; blk.filters = df;
+			blk.header_size = lzma_block_header_size_decode(file[12]);
+			if (lzma_block_header_decode(&blk, NULL, file + 12) != LZMA_OK) { printf("BADLINE %lu block header\n", lineno); return 2; }
+			ip = 12 + blk.header_size;
+			size_t elen = 0;
+			r = lzma_raw_buffer_decode(df + 1, NULL, file, &ip, fsize, ebuf, &elen, cap);
+			if (r != LZMA_OK || elen != plen) { mismatch_num("file_inner_decode", path, r, LZMA_OK); }
+			else {
+				uint32_t off = 0, dist = 0;
+				const char *nm = "?";
+				for (size_t i = 0; i < sizeof(archs) / sizeof(archs[0]); ++i)
+					if (archs[i].id == df[0].id) nm = archs[i].name;
+				if (df[0].id == LZMA_FILTER_DELTA) dist = ((lzma_options_delta *)df[0].options)->dist;
+				else if (df[0].options != NULL) off = ((lzma_options_bcj *)df[0].options)->start_offset;
+				const size_t lim = plen < 16384 ? plen : 16384;
+				printf("FILE line=%lu kind=%s off=%08x dist=%u total=%zu e=", lineno, nm, off, dist, plen);
+				puthex(ebuf, lim); printf(" p="); puthex(pbuf, lim); printf("\n");
+			}
+			for (size_t i = 0; df[i].id != LZMA_VLI_UNKNOWN && i < LZMA_FILTERS_MAX; ++i) free(df[i].options);
+			free(pbuf); free(ebuf);
 		} else {
 			printf("BADLINE %lu\n", lineno);
 			return 2;
